@@ -124,6 +124,9 @@ func runC08(c *Ctx) {
 
 	R.Rule("R-no-dispatch-after-close", "E2+E4+call graph", "after a dispatch that may close the connection (QUIT, error threshold, recovered panic) the command loop passes a branch on state written by Conn.Close before it dispatches another command", 2)
 	ruleNoDispatchAfterClose(c)
+	if f := c.A.Func("(*Conn).Close"); f != nil {
+		R.Ob("(*Conn).Close/marks the connection closed on every path", c.P.Pos(f.Pos()), s.Must(f)["st:Conn.closed=true"], "Conn.Close can return without setting closed (for example when closing the socket fails): the loop's close check never fires and buffered commands are executed, a new session is created")
+	}
 
 	R.Rule("R-giveup-closes", "E2 must-pass-through", "a reply by which the server gives up on the connection (421) is followed, on every path, by Conn.Close before the function returns (in the command loop: by the return that runs the deferred Close)", 4)
 	nGive := 0
